@@ -29,7 +29,8 @@ import (
 // observation to a file; the parent adds how the child ended.
 
 type c18Input struct {
-	Scenario    string `json:"scenario"`    // "close" | "panic" | "panic-close"
+	Family      string `json:"family"`      // "" = OCR3 (v3) plugin, "v2" = OCR2 plugin
+	Scenario    string `json:"scenario"`    // "close" | "panic" | "panic-close" | "hold-close"
 	Procs       int    `json:"procs"`       // GOMAXPROCS of the child (1 = cooperative, repeatable schedule)
 	CloseAtNs   int64  `json:"closeAt"`     // virtual ns after creation ("close") / after the first panic ("panic-close")
 	Yields      int    `json:"yields"`      // runtime.Gosched() calls between creation and Close ("close", closeAt = 0)
@@ -38,10 +39,13 @@ type c18Input struct {
 	PanicSite   string `json:"panicSite"`   // "" or one of c18Sites
 	PanicAtCall int    `json:"panicAtCall"` // first panicking call at that site (1-based)
 	PanicCount  int    `json:"panicCount"`  // consecutive panicking calls
-	Work        int    `json:"work"`        // log payloads per tick (drives pipeline + post-processing)
-	Ineligible  bool   `json:"ineligible"`  // pipeline answers "ineligible" (drives the state updater)
-	LatencyNs   int64  `json:"latencyNs"`   // virtual latency of one pipeline call
-	HonorCtx    bool   `json:"honorCtx"`    // pipeline returns early when its context is cancelled
+	HoldSite    string `json:"holdSite"`    // "hold-close": the holdAtCall-th call at this site stays in flight for holdNs (ignoring its
+	HoldAtCall  int    `json:"holdAtCall"`  // context) and then returns normally; Close is issued closeAt ns after it was entered
+	HoldNs      int64  `json:"holdNs"`
+	Work        int    `json:"work"`       // log payloads per tick (drives pipeline + post-processing)
+	Ineligible  bool   `json:"ineligible"` // pipeline answers "ineligible" (drives the state updater)
+	LatencyNs   int64  `json:"latencyNs"`  // virtual latency of one pipeline call
+	HonorCtx    bool   `json:"honorCtx"`   // pipeline returns early when its context is cancelled
 	// constants of the code under test, recorded so that the Spec needs no second source
 	CoolDownNs int64 `json:"coolDownNs"`
 	IntervalNs int64 `json:"intervalNs"` // tick interval of the flow that owns PanicSite
@@ -84,8 +88,10 @@ func c18Interval(site string) int64 {
 	switch site {
 	case c18SiteGetter:
 		return int64(flows.SamplingConditionInterval)
-	case c18SiteEvents:
-		return int64(time.Second) // coordinator cadence
+	case c18SiteGC:
+		return int64(30 * time.Second) // stores.gcInterval
+	case c18SiteEvents, c18SiteV2Perform, c18SiteV2Stale, c18SiteV2Source:
+		return int64(time.Second) // coordinator cadence (v3 and v2); the harness's head feeder
 	default:
 		return int64(flows.LogCheckInterval)
 	}
@@ -99,6 +105,22 @@ func c18Fill(in c18Input) c18Input {
 	in.IntervalNs = c18Interval(in.PanicSite)
 	in.Services = c18Services
 	in.AuxMax = c18AuxMax
+	if in.Family == "v2" {
+		in.Services = 2 // report coordinator, polling observer
+		in.AuxMax = 2   // the coordinator's two cache cleaners
+		in.Work = 0
+	}
+	if in.HoldSite == c18SitePipeline || in.HoldSite == c18SitePost {
+		if in.Work == 0 {
+			in.Work = 2
+		}
+	}
+	if in.HoldSite == c18SitePost {
+		in.Ineligible = true
+	}
+	if in.HoldSite != "" && in.HoldAtCall <= 0 {
+		in.HoldAtCall = 2
+	}
 	if in.PanicSite == c18SitePipeline || in.PanicSite == c18SitePost {
 		if in.Work == 0 {
 			in.Work = 2
@@ -108,7 +130,7 @@ func c18Fill(in c18Input) c18Input {
 		in.Ineligible = true
 	}
 	if in.PanicSite != "" {
-		if in.Work == 0 {
+		if in.Work == 0 && in.Family != "v2" {
 			in.Work = 1 // every panic case also asks: does a later pipeline call still complete?
 		}
 		if in.PanicAtCall <= 0 {
@@ -133,9 +155,26 @@ func c18Case(t *testing.T, in c18Input, ck func(c18Impl)) {
 	for i := 0; i < in.PreYields; i++ {
 		runtime.Gosched()
 	}
-	node := newC18Node(t, in)
-	pr := node.Probe
+	var node *c18Sys
+	if in.Family == "v2" {
+		node = newC18V2Sys(t, in)
+	} else {
+		node = newC18V3Sys(t, in)
+	}
+	pr := node.probe
 	switch in.Scenario {
+	case "hold-close":
+		impl.Phase = "created"
+		ck(impl)
+		select {
+		case <-pr.held:
+		case <-time.After(time.Duration(int64(in.HoldAtCall)*c18Interval(in.HoldSite)) + 60*time.Second):
+			impl.Note = "the call to hold was not made in time"
+		}
+		impl.Phase = "held"
+		impl.CloseCalled = true // the next check-point comes only after Close has returned
+		ck(impl)
+		time.Sleep(time.Duration(in.CloseAtNs))
 	case "close":
 		for i := 0; i < in.Yields; i++ {
 			runtime.Gosched()
@@ -151,8 +190,8 @@ func c18Case(t *testing.T, in c18Input, ck func(c18Impl)) {
 		ck(impl)
 		select {
 		case <-pr.panicked:
-		case <-time.After(60 * time.Second):
-			impl.Note = "no panic was injected within 60s"
+		case <-time.After(time.Duration(int64(in.PanicAtCall)*in.IntervalNs) + 60*time.Second):
+			impl.Note = "no panic was injected in time"
 		}
 		impl.Phase = "panicked"
 		impl.Panics, impl.PanicAtNs, _, _ = pr.panicInfo()
@@ -175,7 +214,7 @@ func c18Case(t *testing.T, in c18Input, ck func(c18Impl)) {
 				impl.ResumedWithinNs = -1
 			}
 			impl.OthersTicked = true
-			for _, s := range []string{c18SiteLog, c18SiteRecov, c18SiteGetter, c18SiteEvents} {
+			for _, s := range node.others {
 				if f, l := pr.okInWindow(s); s != in.PanicSite && (f == 0 || l == 0) {
 					impl.OthersTicked = false
 				}
@@ -188,11 +227,11 @@ func c18Case(t *testing.T, in c18Input, ck func(c18Impl)) {
 	var err error
 	if in.Scenario == "close" && in.CloseAtNs == 0 {
 		// start-up races: Close on this goroutine, nothing in between
-		err = node.Plugin.Close()
+		err = node.close()
 	} else {
 		// anywhere else a Close that never returns must become a verdict: wait a bounded virtual time for it
 		done := make(chan error, 1)
-		go func() { done <- node.Plugin.Close() }()
+		go func() { done <- node.close() }()
 		select {
 		case err = <-done:
 		case <-time.After(60 * time.Second):
@@ -218,10 +257,12 @@ func c18Case(t *testing.T, in c18Input, ck func(c18Impl)) {
 	time.Sleep(10 * time.Second)
 	synctest.Wait()
 	c2 := pr.snapshot()
-	for _, s := range c18Sites {
+	for _, s := range node.sites {
 		impl.CallsAfterClose[s] = c2[s] - c1[s]
 	}
-	impl.Subscribed = node.Blocks.NumSubs()
+	impl.Subscribed = node.subs()
+	node.stopEnv()
+	synctest.Wait()
 	impl.Leaked, impl.LeakedDetail = c18Goroutines()
 	impl.Panics, _, _, _ = pr.panicInfo()
 	impl.Phase = "measured"
@@ -231,7 +272,7 @@ func c18Case(t *testing.T, in c18Input, ck func(c18Impl)) {
 		// clean-up attempt, so that the bubble can end: a second Close reaches the services whose
 		// recoverer had not been running the first time
 		second := make(chan map[string]int, 1)
-		go func() { second <- c18CloseErrs(node.Plugin.Close()) }()
+		go func() { second <- c18CloseErrs(node.close()) }()
 		time.Sleep(12 * time.Second)
 		synctest.Wait()
 		select {
@@ -414,6 +455,30 @@ func c18Edge() []c18Input {
 			out = append(out, c18Input{Scenario: "panic-close", PanicSite: site, PanicAtCall: 1, PanicCount: count, CloseAtNs: int64(count/2)*c18Interval(site) + 137*c18ms})
 		}
 	}
+	// Close while one provider call of a service is held in flight (it ignores cancellation and then returns
+	// normally), early / half-way / just before it returns / just after it returned
+	holdSites := []string{c18SiteLog, c18SiteRecov, c18SiteGetter, c18SiteEvents, c18SitePipeline, c18SitePost}
+	for _, site := range holdSites {
+		for _, hold := range []int64{3 * c18s, 15 * c18s} {
+			for _, at := range []int64{c18ms, hold / 2, hold - 1, hold + c18ms} {
+				out = append(out, c18Input{Scenario: "hold-close", HoldSite: site, HoldAtCall: 2, HoldNs: hold, CloseAtNs: at})
+			}
+		}
+	}
+	// the OCR2 (v2) plugin: Close at instants across its life, and while a log poll / registry call is in flight
+	for k := 0; k <= 2; k++ {
+		out = append(out, c18Input{Family: "v2", Scenario: "close", Yields: k})
+	}
+	for _, at := range []int64{1, c18ms, c18s - 1, c18s, c18s + 1, c18s + 137*c18ms, 2 * c18s, 5*c18s + 1, 30 * c18s, 30*c18s + 137*c18ms} {
+		out = append(out, c18Input{Family: "v2", Scenario: "close", CloseAtNs: at})
+	}
+	for _, site := range c18SitesV2 {
+		for _, hold := range []int64{500 * c18ms, 3 * c18s, 15 * c18s} {
+			for _, at := range []int64{1, c18ms, hold / 2, hold - 1, hold + c18ms} {
+				out = append(out, c18Input{Family: "v2", Scenario: "hold-close", HoldSite: site, HoldAtCall: 3, HoldNs: hold, CloseAtNs: at})
+			}
+		}
+	}
 	return out
 }
 
@@ -427,7 +492,33 @@ func c18Gen(r *Rng) c18Input {
 		}
 		return v
 	}
-	switch r.Intn(10) {
+	switch r.Intn(13) {
+	case 10, 11: // Close while a provider call is in flight
+		in.Scenario = "hold-close"
+		sites := []string{c18SiteLog, c18SiteRecov, c18SiteGetter, c18SiteEvents, c18SitePipeline, c18SitePost}
+		in.HoldSite = sites[r.Intn(len(sites))]
+		in.HoldAtCall = r.Range(1, 5)
+		in.HoldNs = []int64{137 * c18ms, c18s, 3 * c18s, 7 * c18s, 19 * c18s}[r.Intn(5)]
+		in.CloseAtNs = []int64{0, 1, c18ms, in.HoldNs / 2, in.HoldNs - 1, in.HoldNs, in.HoldNs + 1, in.HoldNs + 500*c18ms}[r.Intn(8)]
+		in.Work = r.Intn(4)
+		return in
+	case 12: // the v2 plugin
+		in.Family = "v2"
+		if r.Bool() {
+			in.Scenario = "close"
+			in.CloseAtNs = grid(35)
+			if r.Chance(20) {
+				in.CloseAtNs = 0
+				in.Yields = r.Intn(4)
+			}
+		} else {
+			in.Scenario = "hold-close"
+			in.HoldSite = c18SitesV2[r.Intn(len(c18SitesV2))]
+			in.HoldAtCall = r.Range(1, 6)
+			in.HoldNs = []int64{137 * c18ms, c18s, 3 * c18s, 7 * c18s, 19 * c18s}[r.Intn(5)]
+			in.CloseAtNs = []int64{0, 1, c18ms, in.HoldNs / 2, in.HoldNs - 1, in.HoldNs, in.HoldNs + 1, in.HoldNs + 500*c18ms}[r.Intn(8)]
+		}
+		return in
 	case 0, 1: // start-up window
 		in.Scenario = "close"
 		switch r.Intn(3) {
